@@ -503,7 +503,7 @@ def rule_guess(repo, tier):
     b: whatever rank normalisation b gets, the guess gets too, under the same condition - otherwise b - A @ x broadcasts a column against a
     vector into an (n, n) matrix and the documented 'optional initial guess' raises for vector right-hand sides."""
     res = RuleResult('C10.GUESS', 'CG.forward applies to the initial guess every rank normalisation it applies to b, in the same branch', floor=1)
-    f = repo.func(SOLVER, 'CG.forward')
+    f = __import__('sa.core', fromlist=['x']).ifexp_view(repo.func(SOLVER, 'CG.forward'))
     pp_ = f.pos_params
     bname, xname = pp_[2], pp_[3]
     n = 0
@@ -600,7 +600,7 @@ def rule_cgrec(repo, tier):
     from ..expr import parities
     res = RuleResult('C10.CGREC', 'CG recurrence roles: r0 = b - A x0 (b even, A x0 odd parity), the convergence test compares the norm of the residual r itself '
                      '(not a preconditioner-weighted quantity) with tol |b|, x += alpha p and r -= alpha A p', floor=4)
-    f = repo.func(SOLVER, 'CG.forward')
+    f = __import__('sa.core', fromlist=['x']).ifexp_view(repo.func(SOLVER, 'CG.forward'))
     pp_ = f.pos_params
     aname, bname, xname = pp_[1], pp_[2], pp_[3] if len(pp_) > 3 else 'x'
     loops = [n for n in ast.walk(f.node) if isinstance(n, ast.For)]
